@@ -9,3 +9,7 @@ open GV.Alias
 #print axioms C19_vec_aliasSafe
 #print axioms C19_naiveMul_not_aliasSafe
 #print axioms C19_karabinaShape_not_aliasSafe
+#print axioms C19_strict_interiorSafe
+#print axioms C19_mixed_interiorSafe
+#print axioms C19_mulByElementCopy_interiorSafe
+#print axioms C19_mulByElementNoCopy_not_interiorSafe
